@@ -28,6 +28,9 @@ def instances(tier):
     for f, nb in (QUICK_FLT if tier == "quick" else [(f, 8) for f in RGB] + QUICK_FLT):
         L.append(Inst("float-%s-n%d" % (f, nb), "C10/flt.c", {"FMT": "PIXMAN_" + f, "NBITS": nb}, link=[], unwind=6, timeout=600,
                       desc={"what": "pixman_expand_to_float: 0 -> 0.0, max -> 1.0, strictly monotone, absent alpha 1.0 / colour 0.0; contract(expand) identity; float_to_unorm clamps and is monotone"}))
+    for f in (("r5g6b5", "a1r5g5b5", "r3g3b2", "a4r4g4b4", "a8") if tier == "quick" else [f for f in RGB if f != "x14r6g6b6"]):
+        L.append(Inst("float-readers-" + f, "C10/fltread.c", {"FMT": "PIXMAN_" + f}, link=["pixman-utils.c"], unwind=64, checks=ck, timeout=600,
+                      desc={"what": "fetch_pixel_float == fetch_scanline_float bit for bit, both == native channel / (2^n - 1), every pixel value and position"}))
     return L
 
 
